@@ -174,12 +174,12 @@ fn format_map_entry(
     Call::Ok(VALUE_NIL)
   } else {
     // if error throw away temporary strings
-    hooks.call(
-      error,
-      &[val!(hooks.manage_str(format!(
-        "Expected type str from {item}.str()"
-      )))],
-    )
+    let message = val!(hooks.manage_str(format!(
+      "Expected type str from {item}.str()"
+    )));
+    let instance = hooks.call(error, &[message])?;
+
+    Call::Err(LyError::Err(instance.to_obj().to_instance()))
   })
 }
 
